@@ -9,6 +9,7 @@ PROP = "C11"
 KIND = "enum"
 SAMPLE = 40
 ARM_BUDGET_QUICK = 700
+THOROUGH_MAX_ENUMERATORS = 1000
 
 
 def hname(prefix, it):
@@ -19,6 +20,17 @@ def build(tier, seed, prop=PROP, kind=KIND, gen=None):
     corpus = wowm.Corpus(vlib.REPO)
     units = definers.collect(vlib.REPO, corpus, kind)
     sel, n_changed = select.pick(units, lambda u: [u[2]["rel"], u[3]["file"]], tier, seed, SAMPLE)
+    meta_big = []
+    if tier == "thorough" and kind == "enum":
+        # enums with more than THOROUGH_MAX_ENUMERATORS enumerators (the Area tables: 1,082-2,500) need > 35 min of symbolic
+        # execution per source type (measured); they are checked whenever their files differ from the baseline, otherwise listed
+        keep = []
+        for u in sel:
+            if len(u[3]["members"]) > THOROUGH_MAX_ENUMERATORS and not select.changed([u[2]["rel"], u[3]["file"]]):
+                meta_big.append("%s (%d enumerators)" % (u[2]["rust_name"] + "@" + u[2]["rel"].split("/")[-2], len(u[3]["members"])))
+            else:
+                keep.append(u)
+        sel = keep
     if tier == "quick":
         # keep the sampled (unchanged) part within an enumerator budget: symbolic execution costs ~0.7 s per enumerator
         keep, arms = [], 0
@@ -29,7 +41,7 @@ def build(tier, seed, prop=PROP, kind=KIND, gen=None):
                 arms += n if k >= n_changed else 0
         sel = keep
     per_crate = {}
-    meta = dict(total=len(units), selected=len(sel), changed=n_changed, missing_impls=[])
+    meta = dict(total=len(units), selected=len(sel), changed=n_changed, missing_impls=[], excluded_for_resources=meta_big)
     for crate, feats, it, d in sel:
         per_crate.setdefault((crate, tuple(feats)), []).append((it, d))
     batches = []
@@ -69,6 +81,7 @@ def check(tier, seed):
         for m in meta["missing_impls"]:
             run.undecided.append(dict(contract=m, reason="expected TryFrom impl not present in the generated source"))
         run.extra["selection"] = dict(enums_in_tree=meta["total"], checked_this_run=meta["selected"], changed_vs_baseline=meta["changed"],
+                                      excluded_for_resources=meta.get("excluded_for_resources", []),
                                       rule="quick: every enum whose generated file or .wowm file differs from baseline_hashes.json + VERIF_SEED sample of %d; thorough: all" % SAMPLE)
         run.trusted += ["Kani 0.68 / CBMC 6.11 / CaDiCaL", "the independent wowm reader spec/wowm.py (tables of (name, value), base type)"]
         run.assumptions += ["Rust variant identifiers are linked to wowm enumerator names by case/underscore-insensitive comparison",
